@@ -277,6 +277,11 @@ Fixpoint py_repr (t : cqltype) (v : value) {struct t} : bool :=
   | _ =>
     match t with
     | TScalar STimestamp => match v with VInt ms => (TS_MIN <=? ms) && (ms <=? TS_MAX) | _ => true end
+    | TScalar SDuration =>          (* 64-bit components: the encoder refuses anything else anyway (C02_rejects) *)
+      match v with
+      | VDur m d n => in_z (- 2 ^ 63) (2 ^ 63) m && in_z (- 2 ^ 63) (2 ^ 63) d && in_z (- 2 ^ 63) (2 ^ 63) n
+      | _ => true
+      end
     | TScalar _ => true
     | TList t' | TSet t' => match v with VSeq vs => forallb (py_repr t') vs | _ => true end
     | TVector t' _ => match v with VSeq vs => forallb (fun x => negb (is_null x) && py_repr t' x) vs | _ => true end
